@@ -965,7 +965,7 @@ func main() {
 			}
 		}
 	} else {
-		n := run.Scale(750, 40000)
+		n := run.Scale(750, 28000)
 		for i := 0; i < n; i++ {
 			cases = append(cases, genCase(run.Rand, run.Thorough()))
 		}
